@@ -186,12 +186,36 @@ def main(argv=None):
     work = [(n, c, want, timeout_ms) for n, c in tasks]
     results, metas = [], []
     ctxmp = mp.get_context("fork")
-    with ctxmp.Pool(min(args.jobs, len(work))) as pool:
-        for res, meta in pool.imap_unordered(_task, work, chunksize=1):
-            results += res
-            metas.append(meta)
-            if args.v:
-                print(f"  done {meta['unit']} {meta['cfg']} {meta['wall']}s", flush=True)
+    unit_limit = int(os.environ.get("SVX_UNIT_LIMIT_S", "600" if timeout_ms <= 20000 else "3000"))
+    remaining = list(work)
+    for attempt in (1, 2):
+        if not remaining:
+            break
+        done_keys = set()
+        pool = ctxmp.Pool(min(args.jobs, len(remaining)))
+        try:
+            it = pool.imap_unordered(_task, remaining, chunksize=1)
+            for _ in range(len(remaining)):
+                try:
+                    res, meta = it.next(timeout=unit_limit + 180)
+                except mp.TimeoutError:
+                    # a worker hung or died (forked processes can deadlock on inherited locks): never wait for ever
+                    break
+                results += res
+                metas.append(meta)
+                done_keys.add((meta["unit"], json.dumps(meta["cfg"], sort_keys=True, default=str)))
+                if args.v:
+                    print(f"  done {meta['unit']} {meta['cfg']} {meta['wall']}s", flush=True)
+        finally:
+            pool.terminate()
+            pool.join()
+        remaining = [w for w in remaining if (w[0], json.dumps(w[1], sort_keys=True, default=str)) not in done_keys]
+    for name, cfg, _w, _t in remaining:  # still not finished after a second attempt in a fresh pool
+        u = contract.UNITS[name]
+        results.append(dict(name=f"{name}/engine[{contract.cfg_str(cfg)}]", props=list(u["props"]), kind="engine", verdict="error",
+                            backend="svx", seconds=0.0, model=None, unit=name, cfg=cfg, goal="",
+                            detail="worker process did not return (hung or died) in two attempts"))
+        metas.append(dict(unit=name, cfg=cfg, paths=0, wall=0.0, functions=[]))
     results.sort(key=lambda r: r["name"])
     signatures = {_base(r["name"]): r for r in results if r["kind"] == "signature"}
     results = [r for r in results if r["kind"] != "signature"]
